@@ -120,6 +120,16 @@ RULE = (
     "place as soon as add_data has returned; every query reads the samples every dataset holds (fit[model].data[name]"
     ".x/.y, bit patterns) - they must be the valid samples handed over when it was added (model: in order; oracle: as "
     "a multiset of pairs). "
+    "On every script whose models are all polynomial toys two further ops run (c14.resid, c14.fjac): every query reads the "
+    "residual VECTOR and the full Jacobian of the fit (through the function / jac callable the public fit() hands to its "
+    "optimiser - stand-in optimiser that leaves before the write-back - and through the private Fit._calculate_residual / "
+    "_calculate_jacobian while they exist; both routes must give the same numbers), every recorded least_squares call "
+    "evaluates its objective at the start and at the answer and its jac at the start; all are compared with the Lean model "
+    "(exact rationals of the doubles; residuals within 1e-9 of the magnitude of the terms, toy sensitivities normally the very "
+    "same rationals). The oracle recomputes from the property text the residual multiset (samples held x parameters by name) "
+    "and the Jacobian rows (minus the sum of x^k over the model parameters mapped to each name) at every query, and asserts on "
+    "every optimiser call that the sum of squares at the answer is not above the one at the start (slack: relative 1e-6 plus n*(1e-6*max|y|)^2: "
+    "TRF moves a start ON a bound strictly inside and stops on tolerances). "
     "Every query also reads the length of the residual vector the fit evaluates (= valid points of all datasets added "
     "so far); a fit that raises inside the optimiser from a feasible start in a box with lb < ub is a violation. Non-trivial: a fit ran to the end with >=2 datasets, an "
     "override or a fixed parameter; or an error path was hit; or >=2 datasets with an override were queried."
@@ -129,12 +139,15 @@ TRUSTED = [
     "the standard-error computation after the write-back (Fit.cov, sigma) is outside the model; an exception raised there is recorded as '!post' and not compared with the model (in the recovery stream the oracle still reports it: those fits have to return)",
     "Python str() of a numeric override is sent to the model verbatim (the code builds condition strings from it)",
     "the Jacobian probe reads the model's private `_calculate_jacobian` while that name exists and, always, the Jacobian the public fit() hands to scipy.optimize.least_squares: for one fit() call, left by an exception of the stand-in optimiser before the write-back, every parameter is freed and unboxed and then given back its value, bounds and flag; `scipy.optimize.least_squares` is looked up by the library at call time (as the recorder of the fits assumes too)",
+    "the hypotheses about the optimiser used by the refit theorems (answer inside the box; sum of squares at the answer not above the one at the start) are asserted by the oracle on every recorded call, the second up to a relative 1e-6 plus n*(1e-6*max|y|)^2 (SciPy moves a start that lies on / next to a bound strictly inside and stops on tolerances of 1e-8); the hypothesis of recovers_generating_parameters (the answer minimises the sum of squares over the box) is NOT asserted - it is what the recovery exploration samples",
+    "the values of the samples are decoded from their bit patterns by Verif.C14.bitsToRat (finite doubles; checked against struct.unpack by the residual tie on every run)",
     "the samples of a dataset travel to the model as the bit patterns of the doubles in the case (NaN entries as 0 next to the NaN masks); the model treats them as opaque values",
 ]
 ASSUMPTIONS = [
     "CondInj (hypothesis of the 'what a dataset sees' theorems): within one model, datasets with different target lists have different condition strings; false only when a parameter NAME equals the str() of a numeric override in the same position or names contain '|' (observation O-C14-A, corpus cases, reported as KNOWN-FINDING)",
     "parameter values and finite bounds are finite doubles (no NaN); model arguments are identifiers",
-    "recovery of the generating parameters is EXPLORATION only (seeded fits on noise-free data), not a theorem",
+    "recovery of the generating parameters by scipy's TRF is EXPLORATION only (seeded fits on noise-free data); the theorem recovers_generating_parameters reduces it to: identifiable + the optimiser answers a minimiser over its box",
+    "the residual / Jacobian theorems are over Rat-valued model functions and sensitivities given as parameters; the tie instantiates them with the polynomial toys only (built-in transcendental models: C12)",
 ]
 
 # ------------------------------------------------------------------ encoders
@@ -1090,7 +1103,12 @@ def _oracle_resid(case, ia):
                     break
             if exp is not None:
                 RESID["oracle:jac_rows_recomputed"] += nexp
-                if got != exp:
+                def _close_rows(g_, e_):
+                    # not the very same rationals (an x whose powers are rounded in doubles): compare as numbers
+                    gr = sorted(_flist("[" + r_ + "]") for r_ in g_.elements())
+                    er = sorted(_flist("[" + r_ + "]") for r_ in e_.elements())
+                    return len(gr) == len(er) and all(len(a_) == len(b_) and all(abs(u - v) <= RESID_TOL * max(1.0, abs(v)) for u, v in zip(a_, b_)) for a_, b_ in zip(gr, er))
+                if got != exp and not _close_rows(got, exp):
                     bad = next(iter((got - exp).keys()), None)
                     return (("sees[condition-string-collision]: " if coll else "") + f"jacobian-matrix: d(residual)/d(parameters {names}) handed to the optimiser is not the chain-rule sum over the "
                             f"parameters each dataset maps to each name: {sum(got.values())} rows, expected {nexp}; a row that should not be there: [{bad}]")
@@ -1137,7 +1155,12 @@ def _oracle_resid(case, ia):
             c0 = math.fsum(v * v for v in _flist(a))
             c1 = math.fsum(v * v for v in _flist(b))
             RESID["oracle:descent_checked"] += 1
-            if not c1 <= c0 * (1 + 1e-9) + 1e-18:
+            # absolute slack: TRF moves a start that lies ON a bound strictly inside (relative step 1e-10) and stops on
+            # tolerances of 1e-8, so from an exactly zero residual it may end at ~1e-10 of the data scale, not at 0
+            ymax = max([1.0] + [abs(v) for a_ in case["actions"] if a_["a"] == "add" for v in a_["y"] if not math.isnan(v)])
+            # relative slack: at a bound-constrained optimum TRF returns the start moved inside by ~1e-9 (thorough seed 0:
+            # 1.2500000000001 -> 1.2500000027)
+            if not c1 <= c0 * (1 + 1e-6) + max(1, len(_flist(b))) * (1e-6 * ymax) ** 2:
                 return f"optimiser-contract: least_squares answered a point with a larger sum of squares ({float(c1)!r}) than its start ({float(c0)!r})"
             if c0 == 0:
                 RESID["oracle:refit_from_zero_residual"] += 1
